@@ -260,7 +260,7 @@ class Check:
             out = errs[:5] or ["build failed (no error position parsed)"]
         return out
 
-    def audit(self, props_rel: str, leanchecker: bool | None = None):
+    def audit(self, props_rel: str, leanchecker: bool | None = None, suffix: str = ""):
         """`#print axioms` on every theorem of the Props file + forbidden-token grep.
         Records one obligation per theorem. Returns True iff all clean."""
         ns, names = self.theorem_names(props_rel)
@@ -268,11 +268,11 @@ class Check:
         lines = [f"import {module}"] + [
             f"#print axioms {ns + '.' if ns else ''}{n}" for n in names
         ]
-        gen = LEAN / "Audit" / f"_gen_{self.pid}.lean"
+        gen = LEAN / "Audit" / f"_gen_{self.pid}{suffix}.lean"
         gen.parent.mkdir(exist_ok=True)
         gen.write_text("\n".join(lines) + "\n")
         rc, log = self.lake(["env", "lean", str(gen.relative_to(LEAN))])
-        self.checker_cmds.append(f"cd lean && lake env lean Audit/_gen_{self.pid}.lean  # #print axioms")
+        self.checker_cmds.append(f"cd lean && lake env lean Audit/_gen_{self.pid}{suffix}.lean  # #print axioms")
         ok_all = rc == 0
         found = {}
         flat = re.sub(r"\s+", " ", log)
@@ -331,17 +331,25 @@ class Check:
 
     def lean_side(self, gen_files: dict, targets: list[str], props_rel: str):
         """translate + build + audit. Returns (ok, broken) where broken lists what no longer checks."""
+        # companion property files TTProofs/Props/<pid>_*.lean (e.g. composition corollaries) are built and
+        # audited with the property
+        extra = sorted(str(f.relative_to(LEAN)) for f in (LEAN / "TTProofs" / "Props").glob(self.pid + "_*.lean"))
+        targets = list(targets) + [e[:-5].replace("/", ".") for e in extra]
         ok, log = self.translate_and_build(gen_files, targets, props_rel)
         broken = []
         if not ok:
             if "error" not in log and "Lean exited" not in log:
                 raise InfraError("lake build failed without a Lean error:\n" + log[-800:])
-            broken = self.failed_theorems(props_rel, log)
+            for pr in [props_rel] + extra:
+                broken += [b for b in self.failed_theorems(pr, log) if b not in broken]
             for b in broken:
                 self.obligations.append({"name": b, "kind": "theorem", "ok": False, "detail": "does not build"})
             self.extra["build_log_tail"] = log[-1500:]
             return False, broken
-        if not self.audit(props_rel):
+        ok_all = True
+        for i, pr in enumerate([props_rel] + extra):
+            ok_all = self.audit(pr, suffix="" if i == 0 else f"_{i}") and ok_all
+        if not ok_all:
             broken = [o["name"] + ": " + o.get("detail", "") for o in self.obligations if not o["ok"]]
             return False, broken
         return True, []
